@@ -508,11 +508,39 @@ fn c04(c: &mut Checker) {
     for k in ks.iter().take(6) {
         scripts.push(Script::CkBC(*k));
     }
+    // the keep-going run's hand-over positions were just checked one by one (M-handover); under
+    // any other answer script a hand-over can only happen at one of those positions
+    let base_handover_locs: std::collections::HashSet<simcore::doc::Path> = base
+        .events
+        .iter()
+        .filter_map(|e| match e {
+            Event::Merge { loc, .. } => Some(loc.clone()),
+            _ => None,
+        })
+        .collect();
+    let check_handover_locs = model_applies(c.scn) && !matches!(base.outcome, Outcome::Panic(_));
     for s in scripts {
         let cfg = c.cfg(s);
         let r = c.exec(&cfg, &has_report);
         let mut out = vec![];
         rules::h_loc(&r, &doc, &mut out);
+        if check_handover_locs {
+            for e in &r.events {
+                if let Event::Merge { loc, .. } = e {
+                    if !base_handover_locs.contains(loc) {
+                        out.push(Violation {
+                            rule: "M-handover",
+                            msg: format!(
+                                "`{}`: no child error is handed over at {} in the keep-going run of the same scenario, so this is not a child's own position",
+                                e.render(),
+                                simcore::doc::path_str(loc)
+                            ),
+                        });
+                        break;
+                    }
+                }
+            }
+        }
         c.record(out, &cfg, &r);
     }
     if doc.json_representable() {
